@@ -40,6 +40,8 @@ Hypothesis G_mov : mov_of (set_pc th p') = mov_of th.
 Hypothesis G_f121 : p' <> F121.
 Hypothesis G_u198 : p' <> U198.
 Hypothesis G_cull : cull_ok (s_strong s) (s_weak s) (s_heap s) (set_pc th p').
+Hypothesis G_iter : iter_ok (s_strong s) (s_weak s) (s_sver s) (s_wver s) (set_pc th p').
+Hypothesis G_xwin : xwinpc (t_pc th) = true -> xwinpc p' = true.
 
 Lemma inv_goto : Inv (put_thr s t (set_pc th p')).
 Proof.
@@ -59,6 +61,9 @@ Proof.
   | |- ref_ok _ (t_self _) => exact Rs
   | |- ref_ok _ (t_cobj _) => exact Rc
   | |- cull_ok _ _ _ _ => exact G_cull
+  | |- iter_ok _ _ _ _ _ => exact G_iter
+  | |- xwinpc _ = true -> _ => exact G_xwin
+  | |- forall o, In o (t_all _) \/ _ -> _ => simpl; intros o X; exact (inv_w_all s Hinv t o Ht X)
   | |- forall o i e, In (RObj o i e) _ -> _ => exact Rl
   | |- sabs _ = true -> _ =>
       simpl; intros S; destruct (G_sabs S) as [A | A]; [now apply (inv_sabs s Hinv t Ht) | exact A]
@@ -76,7 +81,6 @@ Proof.
       fold th in A, C; destruct G_exc as [E | E]; [congruence | right; auto]
   | |- forall x, In (RExc x) _ -> _ => simpl; intros x H; exact (inv_noexc s Hinv t x Ht H)
   | |- core_pc _ = true => exact G_core
-  | |- t_mex _ = false => simpl; apply (inv_scope s Hinv t Ht)
   | |- mov_of _ = mov_of _ \/ _ => left; exact G_mov
   | |- forall i o e, hold_th _ i o e -> _ => intros i o e H; left; eapply hold_th_set_pc; eauto
   | |- forall i0 o0 e0, None = Some _ -> _ => discriminate
@@ -109,6 +113,8 @@ Hypothesis G_mov : mov_of (set_pc th p') = mov_of th.
 Hypothesis G_f121 : p' <> F121.
 Hypothesis G_u198 : p' <> U198.
 Hypothesis G_cull : cull_ok (s_strong s) (s_weak s) (s_heap s) (set_pc th p').
+Hypothesis G_iter : iter_ok (s_strong s) (s_weak s) (s_sver s) (s_wver s) (set_pc th p').
+Hypothesis G_xwin : xwinpc (t_pc th) = true -> xwinpc p' = true.
 
 Lemma inv_goto_lock : Inv (put_thr (with_lock s l') t (set_pc th p')).
 Proof.
@@ -128,6 +134,9 @@ Proof.
   | |- ref_ok _ (t_self _) => exact Rs
   | |- ref_ok _ (t_cobj _) => exact Rc
   | |- cull_ok _ _ _ _ => exact G_cull
+  | |- iter_ok _ _ _ _ _ => exact G_iter
+  | |- xwinpc _ = true -> _ => exact G_xwin
+  | |- forall o, In o (t_all _) \/ _ -> _ => simpl; intros o X; exact (inv_w_all s Hinv t o Ht X)
   | |- forall o i e, In (RObj o i e) _ -> _ => exact Rl
   | |- sabs _ = true -> _ =>
       simpl; intros S; destruct (G_sabs S) as [A | A]; [now apply (inv_sabs s Hinv t Ht) | exact A]
@@ -145,7 +154,6 @@ Proof.
       fold th in A, C; destruct G_exc as [E | E]; [congruence | right; auto]
   | |- forall x, In (RExc x) _ -> _ => simpl; intros x H; exact (inv_noexc s Hinv t x Ht H)
   | |- core_pc _ = true => exact G_core
-  | |- t_mex _ = false => simpl; apply (inv_scope s Hinv t Ht)
   | |- mov_of _ = mov_of _ \/ _ => left; exact G_mov
   | |- forall i o e, hold_th _ i o e -> _ => intros i o e H; left; eapply hold_th_set_pc; eauto
   | |- forall i0 o0 e0, None = Some _ -> _ => discriminate
@@ -183,6 +191,10 @@ Ltac thr_obl s t Hinv Hlt Hpc :=
   | |- ref_ok _ (t_cobj _) =>
       unfold ref_ok; simpl; first [exact (inv_w_cobj s Hinv t Hlt) | intros ? HH; discriminate HH | idtac]
   | |- cull_ok _ _ _ _ => try (apply cull_ok_none; reflexivity)
+  | |- iter_ok _ _ _ _ _ => try (apply iter_ok_none; reflexivity)
+  | |- xwinpc _ = true -> _ => rewrite ?Hpc; simpl; try (intros HH; discriminate HH); try (intros; reflexivity)
+  | |- forall o, In o (t_all _) \/ _ -> _ =>
+      simpl; first [intros ? HH; exact (inv_w_all s Hinv t _ Hlt HH) | intros ? [[] | []] | idtac]
   | |- forall o i e, In (RObj o i e) _ -> _ =>
       simpl; first [exact (proj2 (proj2 (thr_refs s t Hinv Hlt))) | intros ? ? ? [] | idtac]
   | |- sabs _ = true -> _ =>
@@ -213,7 +225,6 @@ Ltac thr_obl s t Hinv Hlt Hpc :=
   | |- forall x, In (RExc x) _ -> _ =>
       simpl; first [intros ? HH; exact (inv_noexc s Hinv t _ Hlt HH) | intros ? [] | idtac]
   | |- core_pc _ = true => reflexivity
-  | |- t_mex _ = false => simpl; first [exact (proj2 (inv_scope s Hinv t Hlt)) | reflexivity]
   | |- mov_of _ = mov_of _ \/ _ => try (left; unfold mov_of; simpl; rewrite ?Hpc; reflexivity)
   | |- forall i o e, hold_th _ i o e -> _ =>
       try (intros ? ? ? HH; left; eapply hold_th_set_pc; [| exact HH]; rewrite ?Hpc; simpl; intros; first [discriminate | reflexivity])
@@ -222,6 +233,9 @@ Ltac thr_obl s t Hinv Hlt Hpc :=
   | |- forall k, deadw _ = Some k -> _ => try (simpl; intros ? HH; discriminate HH)
   | |- t_pc _ <> F121 => simpl; try discriminate
   | |- holds (t_pc _) = holds (t_pc _) => simpl; rewrite ?Hpc; try reflexivity
+  | |- holds (t_pc _) = true => try (rewrite Hpc; reflexivity)
+  | |- xwinpc (t_pc _) = false => try (rewrite Hpc; reflexivity)
+  | |- iterpc (t_pc _) = false => try reflexivity
   | |- forall o, o < _ -> (wl _ o <-> wl _ o) => try (intros ? _; unfold wl; simpl; rewrite ?Hpc; simpl; tauto)
   | |- _ => try reflexivity
   end.
@@ -246,12 +260,15 @@ Hypothesis Es : s_strong s' = s_strong s.
 Hypothesis Ew : s_weak s' = s_weak s.
 Hypothesis Ee : s_epoch s' = s_epoch s.
 Hypothesis Eu : s_unmod s' = s_unmod s.
+Hypothesis Esv : s_sver s' = s_sver s.
+Hypothesis Ewv : s_wver s' = s_wver s.
 Hypothesis Eo : s_nextobj s' = s_nextobj s.
 Hypothesis K : keys_kept s s'.
 Hypothesis LC : lock_change s s' t (finish th r).
 Hypothesis WC : wlock_change s s' t (finish th r).
 Hypothesis WG : forall o, s_nextobj s' <= o -> o_wlock (s_heap s' o) = o_wlock (s_heap s o).
 Hypothesis Hmov : mov_of th = None.
+Hypothesis Hxw : xwinpc (t_pc th) = false.
 Hypothesis Hres :
   match r with
   | RObj o i e =>
@@ -279,6 +296,9 @@ Proof.
   | |- ref_ok _ (t_self _) => simpl; intros ? HH; discriminate HH
   | |- ref_ok _ (t_cobj _) => simpl; intros ? HH; discriminate HH
   | |- cull_ok _ _ _ _ => apply cull_ok_none; reflexivity
+  | |- iter_ok _ _ _ _ _ => apply iter_ok_none; reflexivity
+  | |- xwinpc _ = true -> _ => fold th; rewrite Hxw; discriminate
+  | |- forall o, In o (t_all _) \/ _ -> _ => simpl; intros ? [[] | []]
   | |- forall o i e, In (RObj o i e) _ -> _ =>
       simpl; intros o i e HH; rewrite Eo; apply in_app_or in HH; destruct HH as [HH | [HH | []]];
       [eapply Rl; eauto | subst r; tauto]
@@ -293,7 +313,6 @@ Proof.
       simpl; intros x HH; apply in_app_or in HH; destruct HH as [HH | [HH | []]];
       [exact (inv_noexc s Hinv t x Ht HH) | subst r; exact Hres]
   | |- core_pc _ = true => reflexivity
-  | |- t_mex _ = false => reflexivity
   | |- mov_of _ = mov_of _ \/ _ => left; fold th; rewrite Hmov; reflexivity
   | |- forall i o e, hold_th _ i o e -> _ => idtac
   | |- forall i0 o0 e0, _ = Some _ -> _ /\ _ => idtac
@@ -329,6 +348,7 @@ Ltac goto_side s Hinv t Hlt Hpc :=
   | |- mov_of _ = mov_of _ => unfold mov_of; simpl; rewrite ?Hpc; try reflexivity
   | |- _ <> F121 => discriminate
   | |- _ <> U198 => discriminate
+  | |- iter_ok _ _ _ _ _ => try (apply iter_ok_none; reflexivity)
   | |- cull_ok _ _ _ _ =>
       first [apply cull_ok_none; reflexivity
             | apply cull_ok_goto; [now apply inv_cull | rewrite ?Hpc; simpl; intuition congruence ..]
